@@ -6,11 +6,15 @@ Unknown or malformed ops answer `bad-op` (never defaulted).
 import MetricsVerif.Driver.C08
 import MetricsVerif.Driver.Prom
 import MetricsVerif.Driver.OnceCell
+import MetricsVerif.Driver.Layers
+import MetricsVerif.Driver.Tracing
 
 open MetricsVerif.Driver
 
 structure DState where
   prom : Option MetricsVerif.Prom.St := none
+  layers : Option Layers.St := none
+  tracing : Option Tracing.DSt := none
 
 def step (st : DState) (line : String) : DState × String :=
   if line.startsWith "#" then ({}, line) else
@@ -19,6 +23,14 @@ def step (st : DState) (line : String) : DState × String :=
   | "prom" :: args =>
     match Prom.handle st.prom args with
     | some (p, o) => ({ st with prom := p }, o)
+    | none => (st, "bad-op")
+  | "layers" :: args =>
+    match Layers.handle st.layers args with
+    | some (l, o) => ({ st with layers := l }, o)
+    | none => (st, "bad-op")
+  | "tracing" :: args =>
+    match Tracing.handle st.tracing args with
+    | some (p, o) => ({ st with tracing := p }, o)
     | none => (st, "bad-op")
   | "cell" :: args => (st, (OnceCell.handle args).getD "bad-op")
   | _ => (st, "bad-op")
